@@ -173,6 +173,10 @@ class HarnessError(Exception):
     pass
 
 
+# set by run_batch when a chunk died or hung AFTER violations had been recorded in other runs
+ABORTED: list[str] = []
+
+
 def _kill_pool(pool) -> None:
     procs = list(getattr(pool, "_processes", {}).values())
     for p in procs:
@@ -230,7 +234,14 @@ def run_batch(prop, verif_seed, tier, indices, jobs, chunk, sample_idx, wall_cap
                 try:
                     recs = f.result()
                 except Exception as exc:
-                    raise HarnessError(f"worker died on runs {ch[0]}..{ch[-1]}: {exc!r}")
+                    msg = f"worker died on runs {ch[0]}..{ch[-1]}: {exc!r}"
+                    if any(r.get("violations") for r in records):
+                        # violations were already observed: report those (the caller decides;
+                        # without a confirmed new violation the abort is still a harness error)
+                        ABORTED.append(msg)
+                        pending.clear()
+                        break
+                    raise HarnessError(msg)
                 for r in recs:
                     if "harness_error" in r:
                         raise HarnessError(
@@ -242,7 +253,17 @@ def run_batch(prop, verif_seed, tier, indices, jobs, chunk, sample_idx, wall_cap
                 submit_next()
             for f, (ch, ts) in list(pending.items()):
                 if now - ts > chunk_timeout + 30:
-                    raise HarnessError(f"runs {ch[0]}..{ch[-1]} hung (> {chunk_timeout}s)")
+                    msg = f"runs {ch[0]}..{ch[-1]} hung (> {chunk_timeout}s)"
+                    if any(r.get("violations") for r in records):
+                        ABORTED.append(msg)
+                        pending.clear()
+                        break
+                    raise HarnessError(msg)
+        if ABORTED:
+            _kill_pool(pool)
+            pool.shutdown(wait=False, cancel_futures=True)
+            records.sort(key=lambda r: r["index"])
+            return records, True
     except BaseException:
         _kill_pool(pool)
         pool.shutdown(wait=False, cancel_futures=True)
@@ -567,6 +588,11 @@ def _main_batch(mod, prop, verif_seed, args, t_start) -> int:
                 continue
             unconfirmed.append(f"violation {sig} could not be confirmed in {len(cands)} "
                                f"attempts: {problems}")
+    if ABORTED:
+        if rc == 0:
+            raise HarnessError("; ".join(ABORTED))
+        print(f"WARNING property={prop}: the batch was cut short ({'; '.join(ABORTED)[:300]}); "
+              f"the violations above come from the runs completed before")
     if unconfirmed:
         if rc == 0:
             raise HarnessError("; ".join(unconfirmed))
@@ -578,7 +604,10 @@ def _main_batch(mod, prop, verif_seed, args, t_start) -> int:
     by_index = {r["index"]: r for r in records}
     det_n = min(plan.get("det_pairs", 32), len(records))
     det_idx = [r["index"] for r in records[:: max(1, len(records) // det_n)]][:det_n]
-    rec2, _ = run_batch(prop, verif_seed, tier, list(reversed(det_idx)), 5, 3, set(), None)
+    if ABORTED:
+        det_idx = []  # (the batch was cut short and a violation is reported: no self-test)
+    rec2, _ = run_batch(prop, verif_seed, tier, list(reversed(det_idx)), 5, 3, set(), None) \
+        if det_idx else ([], False)
     mismatch = [r["index"] for r in rec2 if r["digest"] != by_index[r["index"]]["digest"]]
     fresh_n = min(plan.get("fresh", 4), len(det_idx))
     fresh_pairs = 0
